@@ -180,6 +180,10 @@ fn ts_variants() -> Vec<(String, Vec<u8>)> {
         ("indefinite length".into(), vec![0x30, 0x80, 0xa0, 0x03, 0x02, 0x01, 0x02, 0x00, 0x00]),
         ("length 2^32-1".into(), vec![0x30, 0x84, 0xFF, 0xFF, 0xFF, 0xFF, 0xa0, 0x03, 0x02, 0x01, 0x02]),
         ("length 2^63".into(), vec![0x30, 0x88, 0x80, 0, 0, 0, 0, 0, 0, 0, 0xa0]),
+        ("length 2^64-1".into(), vec![0x30, 0x88, 0xFF, 0xFF, 0xFF, 0xFF, 0xFF, 0xFF, 0xFF, 0xFF]),
+        ("length 2^64-2 then data".into(), vec![0x30, 0x88, 0xFF, 0xFF, 0xFF, 0xFF, 0xFF, 0xFF, 0xFF, 0xFE, 0xa0, 0x03, 0x02, 0x01, 0x02]),
+        ("inner length 2^64-1".into(), vec![0x30, 0x0c, 0xa0, 0x0a, 0x02, 0x88, 0xFF, 0xFF, 0xFF, 0xFF, 0xFF, 0xFF, 0xFF, 0xFF]),
+        ("length 2^64-16".into(), vec![0x30, 0x88, 0xFF, 0xFF, 0xFF, 0xFF, 0xFF, 0xFF, 0xFF, 0xF0, 0xa0]),
         ("octet string length 2^31".into(), vec![0x30, 0x10, 0xa0, 0x03, 0x02, 0x01, 0x02, 0xa3, 0x09, 0x04, 0x84, 0x80, 0, 0, 0, 1, 2, 3]),
         ("3 negoTokens".into(), many_tokens(&tok, 3)),
         ("63 negoTokens".into(), many_tokens(&tok, 63)),
